@@ -195,7 +195,9 @@ class Impl:
         self.root = ET.XML('<r/>')
         self.XPathContext = XPathContext
         self.parsers = {}
-        for pname, P in (('2', XPath2Parser), ('31', XPath31Parser)):
+        from elementpath.xpath30 import XPath30Parser
+        self.parser_classes = {'2': XPath2Parser, '30': XPath30Parser, '31': XPath31Parser}
+        for pname, P in self.parser_classes.items():
             for v in ('1.0', '1.1'):
                 self.parsers[(pname, v)] = P(xsd_version=v)
         self.tokens = {}
@@ -210,6 +212,16 @@ class Impl:
                 tok = e
             self.tokens[key] = tok
         return tok
+
+    def option_parser(self, pname: str, name: str, namespaces: dict, default_namespace):
+        """a parser with non-default static context options; registered as parsers[(pname, name)]"""
+        key = (pname, name)
+        if key not in self.parsers:
+            kw = {'namespaces': dict(namespaces)}
+            if default_namespace is not None:
+                kw['default_namespace'] = default_namespace
+            self.parsers[key] = self.parser_classes[pname](**kw)
+        return key
 
     def xpath(self, pname: str, v: str, expr: str, variables: dict, timezone=None):
         """-> ('ok', value) | ('err', text)"""
@@ -1278,6 +1290,152 @@ def sequence_cases(run: Run, impl: Impl) -> None:
                                                   site='_xpath2_operators.py cast/castable, contructors.py evaluate'))
 
 
+# ------------------------------------------------------------------------------ the value of a QName cast from a string
+XML_NS = 'http://www.w3.org/XML/1998/namespace'
+XSD_NS = 'http://www.w3.org/2001/XMLSchema'
+FN_NS = 'http://www.w3.org/2005/xpath-functions'
+# the statically known namespaces are host-defined in XPath: the library documents xml, xs, fn, err for every parser (the
+# test strings use only these prefixes, the options' prefixes and undeclared ones such as xsi and zz9)
+PREDECLARED = {'xml': XML_NS, 'xs': XSD_NS, 'fn': FN_NS, 'err': 'http://www.w3.org/2005/xqt-errors'}
+QNAME_CONFIGS = [     # (name, namespaces= option, default_namespace= option)
+    ('default+p+q', {'p': 'urn:p', 'q': 'urn:q'}, 'urn:d'),
+    ('p+q', {'p': 'urn:p', 'q': 'urn:q'}, None),
+    ('default-only', {}, 'http://example.com/ns'),
+    ('default=xsd', {'p': 'urn:p', 'P': 'urn:P2'}, XSD_NS),
+]
+
+
+def xp_str(s: str) -> str:
+    return "'" + s.replace("'", "''") + "'"
+
+
+def qname_value_cases(run: Run, impl: Impl) -> None:
+    """xs:QName from a string under non-default parser options: the *components* of the value (namespace URI, prefix, local
+    name) against the Lean model of AbstractQName.make and the F&O rule (prefix in the statically known namespaces, an
+    unprefixed name in the default element/type namespace), through the constructor function, `cast as`, the accessor
+    functions and `eq fn:QName(uri, lexical)`."""
+    rng, st = run.rng, run.stats
+    n = run.scale(60, 600)
+    fixed = ['a', 'p:a', 'q:b', 'xs:integer', 'fn:abs', 'xml:lang', 'zz9:a', ' a ', ' p:a', 'p:a ', '\n p:a\t', 'P:a', 'p:1a', '1:a',
+             ':a', 'a:', 'p:q:a', '', ' ', 'p: a', 'xsi:type', "o'k", 'p:\u00e9', '\u00e9']
+    lines, cases = [], []
+    for cname, nsopt, dflt in QNAME_CONFIGS:
+        strings = list(fixed)
+        for _ in range(n):
+            pre = rng.choice(['', '', '', 'p:', 'q:', 'xs:', 'fn:', 'xml:', 'zz9:', 'P:', ':'])
+            body = g_name(rng) if rng.random() < 0.8 else rng.choice(['', '1a', 'a b', 'a:b', '-a'])
+            strings.append(mutate(rng, pre + body) if rng.random() < 0.5 else
+                           rng.choice(['', ' ', '\n', '\t ']) + pre + body + rng.choice(['', ' ', '\n']))
+        known = dict(PREDECLARED)
+        known.update(nsopt)
+        nfield = '|'.join(f'{cps(k)}/{cps(u)}' for k, u in sorted(known.items())) or '-'
+        for s in strings:
+            lines.append(f'op=qres N={nfield} D={cps(dflt) if dflt is not None else "-"} S={cps(s)}')
+            cases.append((cname, nsopt, dflt, s))
+    answers = run.driver('C10', lines)
+    for (cname, nsopt, dflt, s), ans in zip(cases, answers):
+        f = dict(kv.split('=', 1) for kv in ans.split(' ') if '=' in kv)
+        mm, sp = f.get('model'), f.get('spec')
+        for pn in ('2', '30', '31'):
+            key = impl.option_parser(pn, 'q:' + cname, nsopt, dflt)
+            case = {'config': cname, 'namespaces': nsopt, 'default_namespace': dflt, 'parser': pn, 'string': s, 'cps': cps(s)}
+            st.case(['qname-value', cname, pn, s], nontrivial=True)
+            lit = xp_str(s)
+            forms = {'ctor-literal': (f'xs:QName({lit})', {}), 'cast-literal': (f'{lit} cast as xs:QName', {})}
+            if pn != '2':
+                forms.update({'ctor-var': ('xs:QName($s)', {'s': s}), 'cast-var': ('$s cast as xs:QName', {'s': s}),
+                              'item#1': ('xs:QName#1($s)', {'s': s}), 'arrow': ('$s => xs:QName()', {'s': s}),
+                              'map!': ('$s ! xs:QName(.)', {'s': s})})
+            if pn == '30':
+                del forms['arrow']      # the arrow operator is XPath 3.1
+            for fname, (expr, vs) in forms.items():
+                k, r = impl.xpath(key[0], key[1], expr, vs)
+                if k == 'ok' and isinstance(r, list) and len(r) == 1:
+                    r = r[0]
+                if k == 'ok':
+                    try:
+                        got = f'ok:{cps(r.uri or "")}:{cps(r.prefix or "")}:{cps(r.local_name)}'
+                    except Exception as e:
+                        got = f'?{r!r}:{type(e).__name__}'
+                else:
+                    got = {'ERR:FORG0001': 'ERR:V', 'ERR:FONS0004': 'ERR:K'}.get(r, r)
+                st.count('qname-value:' + fname + ':' + (got if got.startswith('ERR') else 'ok'))
+                # interim finding F10m (repair on fix-c10-6): the prefix is looked up before the white space is removed
+                stripped = s.strip(' \t\n\r')
+                tags = ['F10m'] if (s[:1] in (' ', '\t', '\n', '\r') and ':' in stripped and got == 'ERR:K') else []
+                if got != mm:
+                    run.disagree(Disagreement(dict(case, path=fname, expr=expr), impl=got, model=mm, what='qname-value-model',
+                                              site='qname.py AbstractQName.make', tags=tags))
+                want = got if (sp == 'ERR' and got.startswith('ERR')) else sp
+                if got != want:
+                    run.disagree(Disagreement(dict(case, path=fname, expr=expr), impl=got, model=mm, spec=sp,
+                                              what='qname-value-vs-static-context', site='qname.py AbstractQName.make', tags=tags))
+                elif k == 'ok' and fname in ('ctor-literal', 'cast-literal'):
+                    # the same components through the accessor functions and through `eq`
+                    uri, pre, loc = (''.join(chr(int(c)) for c in x.split(',')) if x != '_' else '' for x in sp.split(':')[1:4])
+                    acc = {
+                        f'namespace-uri-from-QName({expr})': uri, f'prefix-from-QName({expr})': pre,
+                        f'local-name-from-QName({expr})': loc,
+                        f'{expr} eq QName({xp_str(uri)}, {xp_str(s.strip())})': True,
+                        f'{expr} eq QName({xp_str(uri + "x")}, {xp_str(s.strip())})': False,
+                    }
+                    for e2, exp in acc.items():
+                        k2, r2 = impl.xpath(key[0], key[1], e2, {})
+                        g2 = (r2 if isinstance(r2, bool) else ('' if r2 == [] or r2 is None else str(r2))) if k2 == 'ok' else r2
+                        st.count('qname-value:accessor')
+                        if g2 != exp:
+                            run.disagree(Disagreement(dict(case, path=fname, expr=e2), impl=repr(g2), spec=repr(exp),
+                                                      what='qname-accessor-vs-static-context', site='fn QName accessors'))
+
+
+# ------------------------------------------------------------------------------ constructors applied as function items
+FUNC_FORMS = {      # every way of applying the constructor of T to the value of E; reference: xs:T(E)
+    'named-ref': 'xs:{t}#1({e})',
+    'let-ref': 'let $f := xs:{t}#1 return $f({e})',
+    'function-lookup': "function-lookup(xs:QName('xs:{t}'), 1)({e})",
+    'for-each': 'for-each({e}, xs:{t}#1)',
+    'simple-map': '({e}) ! xs:{t}(.)',
+    'arrow': '({e}) => xs:{t}()',
+    'partial': 'xs:{t}(?)({e})',
+}
+
+
+PARTIAL_BROKEN = ('string', 'boolean', 'QName', 'dateTime', 'dateTimeStamp')     # trigger of F10j
+
+
+def funcitem_cases(run: Run, impl: Impl) -> None:
+    """`xs:T#1(E)`, `function-lookup(...)(E)`, `for-each(E, xs:T#1)`, `E ! xs:T(.)`, `E => xs:T()`, `xs:T(?)(E)` must agree with
+    `xs:T(E)` on success, value and error code, for every T and every source value (XPath 3.0 and 3.1 parsers)."""
+    rng, st = run.rng, run.stats
+    src = source_values(impl, rng)
+    src['string'] = src['string'] + ["'false'", "'maybe'", "'0'", "'1'", "'12'", "'1999-12-31T23:59:59Z'", "'12:00:00'"]
+    targets = [t for t in sorted(impl.types) if t not in SKIPPED_TYPES]
+    cells = [(stype, e, t) for stype, exprs in sorted(src.items()) for e in exprs for t in targets]
+    if run.quick:      # every target with every string source, a sample of the other cells
+        cells = [c for c in cells if c[0] == 'string' or rng.random() < 0.12]
+    for stype, e, t in cells:
+        for pn in ('30', '31'):
+            v = '1.1' if (run.quick or t == 'dateTimeStamp' or stype == 'dateTimeStamp') else rng.choice(['1.0', '1.1'])
+            k0, r0 = impl.xpath(pn, v, f'xs:{t}({e})', {})
+            base = ('ok:' + value_text(r0)) if k0 == 'ok' else r0
+            st.case(['funcitem', e, t, pn], nontrivial=True)
+            for fname, tpl in FUNC_FORMS.items():
+                if fname == 'arrow' and pn == '30':
+                    continue      # the arrow operator is XPath 3.1
+                expr = tpl.format(t=t, e=e)
+                k, r = impl.xpath(pn, v, expr, {})
+                if k == 'ok' and isinstance(r, list) and len(r) == 1:
+                    r = r[0]
+                got = ('ok:' + value_text(r)) if k == 'ok' else r
+                st.count('funcitem:' + fname + ':' + ('ok' if k == 'ok' else 'err'))
+                # finding F10j: the placeholder form of the constructors that share their name with a function (own `nud`)
+                tags = ['F10j'] if fname == 'partial' and t in PARTIAL_BROKEN else []
+                if got != base:
+                    run.disagree(Disagreement({'source': e, 'source_type': stype, 'target': t, 'xsd': v, 'parser': pn,
+                                               'form': fname, 'expr': expr}, impl=got, spec=base, tags=tags,
+                                              what='function-item-vs-constructor-call', site='xpath_tokens/functions.py XPathFunction.__call__'))
+
+
 def matrix_cases(run: Run, impl: Impl) -> None:
     st = run.stats
     src = source_values(impl, run.rng)
@@ -2136,6 +2294,8 @@ def body(run: Run) -> int:
         run.stats.extra['mutable_after_construction'] = mutable_types_scan()
         sequence_cases(run, impl)
         matrix_cases(run, impl)
+        qname_value_cases(run, impl)
+        funcitem_cases(run, impl)
     except DriverError as e:
         run.broken.append('driver:C10 ' + str(e)[:300])
     return run.finish('proof', shrink=shrink, search=search)
